@@ -20,6 +20,10 @@ INSERT = 250            # params.INSERT_SIZE as the docstrings of edge_losses/ed
 TOL = 1e-9
 
 SIG_NAN = 'c04-weight-nan-no-usable-target'
+# candidate finding (proved: Props/C04.v C04_centred_crossing_refuted): reported as KNOWN-FINDING once it is recorded in
+# known_findings.json under this signature, until then noted in the evidence (coverage.candidate_finding)
+SIG_CROSS = 'c04-centred-null-crossing'
+CROSS_NAME = 'null-bin-crosses-cutoff-under-final-shift'
 
 
 # ----------------------------------------------------------------------------------------------
@@ -309,26 +313,49 @@ def direct_oracle(ck, case, out, label):
                     ck.violation('%s: a larger reference spread got a larger weight' % label, case, code=[p, q],
                                  expected='weight non-increasing in spread', clause='C04_weight_mono')
                     return False
+    # --- every log2 is a number
+    bad = [r for r in out if r[4] != r[4] or abs(r[4]) == float('inf')]
+    if bad:
+        ck.violation('%s: %d output bin(s) have a log2 that is not a finite number' % (label, len(bad)), case,
+                     code=[list(r) for r in bad[:5]], clause='C04_constant_shift')
+        return False
     # --- centred
-    low = [(r[4] < -15) or False for r in out]
+    dnull = [False] * len(out)
     if case['sdepth']:
         dep = {(r[0], r[1], r[2]): r[5] for r in case['target'] + case['anti']}
-        low = [lo or dep[(r[0], r[1], r[2])] == 0 for r, lo in zip(out, low)]
+        dnull = [dep[(r[0], r[1], r[2])] == 0 for r in out]
+    low = [(r[4] < -15) or d for r, d in zip(out, dnull)]
     cs = centre_stat(out, low)
-    if cs is not None and abs(float(cs)) > TOL and not any(abs(r[4] + 15) < 4 for r in out):
-        ck.violation('%s: output is not centred' % label, case, code=float(cs), expected=0, clause='C04_centred')
-        return False
+    if cs is not None and abs(float(cs)) > TOL:
+        # C04_centred_selected (always): the bins that had coverage when the centre was estimated -- those with
+        # out - s >= -15 for the final shift s, i.e. an upper set by log2 of the bins with a depth -- are centred.
+        # The plain clause (covered OUTPUT bins centred, C04_centred) needs that no bin crosses -15 under s.
+        centred_set = None
+        for th in sorted({r[4] for r, d in zip(out, dnull) if not d}):
+            c2 = centre_stat(out, [d or r[4] < th for r, d in zip(out, dnull)])
+            if c2 is not None and abs(float(c2)) <= TOL:
+                centred_set = th
+                break
+        if centred_set is None:
+            ck.violation('%s: output is not centred' % label, case, code=float(cs), expected=0, clause='C04_centred')
+            return False
+        # a bin crossed the null-coverage cut-off under the final shift (C04_centred_crossing): the covered output
+        # bins are not centred although the bins the centre was estimated from are (finding SIG_CROSS)
+        ck.extra['null_crossing_cases'] = ck.extra.get('null_crossing_cases', 0) + 1
+        if label == 'corpus:' + CROSS_NAME:
+            what = ('%s: a bin crosses the null-coverage cut-off -15 under the final centring shift; the covered output '
+                    'bins have centre %s, not 0' % (label, float(cs)))
+            if ck.known_match(SIG_CROSS) is not None:
+                ck.violation(what, case, sig=SIG_CROSS, code=float(cs), expected=0, clause='C04_centred')
+            else:
+                ck.extra['candidate_finding'] = {'signature': SIG_CROSS, 'what': what, 'case': CROSS_NAME,
+                                                 'proved': 'Props/C04.v C04_centred_crossing_refuted'}
     # --- values: sample - rolling medians - reference + one constant per class
     perms = {}
     def perm_by_n(n):
         if n not in perms:
             perms[n] = numpy_perm(n)
         return perms[n]
-    bad = [r for r in out if r[4] != r[4] or abs(r[4]) == float('inf')]
-    if bad:
-        ck.violation('%s: %d output bin(s) have a log2 that is not a finite number' % (label, len(bad)), case,
-                     code=[list(r) for r in bad[:5]], clause='C04_constant_shift')
-        return False
     outd = {(r[0], r[1], r[2]): r for r in out}
     for part in ('target', 'anti'):
         rows, z, applied = expected_core(case, part, perm_by_n)
@@ -743,6 +770,58 @@ def check_sample_permutation(ck, cases, outs, limit):
                          expected='identical output', clause='C04_perm_invariance')
 
 
+def check_nan_boundary(ck, n):
+    """C04_weight_nan_iff / C04_weight_nan_depth against the code: one class of bins (on-target, or off-target by gene
+    name) made null-coverage throughout -- by a zero depth, or by log2 -20 -- and the other left alone.  The code's weights
+    of a class are NaN exactly when the model's residual vector of that class is empty while the class has output bins.
+    (That the code gives NaN there at all is the open finding SIG_NAN, reported on its canonical corpus case only.)"""
+    rng = ck.rng
+    cases = []
+    while len(cases) < n:
+        case = gen_case(rng, nbins=rng.choice([20, 24, 30]))
+        if not case['anti'] or not in_precondition(case):
+            continue
+        part = rng.choice(['target', 'anti', 'anti'])
+        by_depth = case['sdepth'] and rng.random() < 0.6
+        for r in case[part]:
+            if by_depth:
+                r[5] = 0.0
+                if rng.random() < 0.5:
+                    r[4] = -20.0
+            else:
+                r[4] = -20.0 - rng.choice([0.0, 0.5, 3.0])
+        if rng.random() < 0.3:
+            # ... except for one bin: the class keeps a residual and the weights are numbers again
+            r = rng.choice(case[part])
+            r[4], r[5] = g(rng, -1, 1), 10.0
+        cases.append(case)
+    outs = [run_code(c) for c in cases]
+    pre = vlib.model_batch_parallel('c04_pre', [model_input(c) for c in cases])
+    for case, out, p in zip(cases, outs, pre):
+        ck.count(['nan-boundary', case], nontrivial=not isinstance(out, Err), cls='nan-boundary')
+        if isinstance(out, Err) or isinstance(p, Err):
+            if not (isinstance(out, Err) and isinstance(p, Err)):
+                ck.tie_break('nan-boundary: one of code / model raises', case, code=out, model=repr(p)[:200])
+            continue
+        for anti in (False, True):
+            rows = [r for r in out if (r[3] in ('Antitarget', 'Background')) == anti]
+            nan_rows = [r for r in rows if r[5] != r[5]]
+            if nan_rows and len(nan_rows) != len(rows):
+                ck.violation('nan-boundary: only some weights of one class are NaN', case, code=[list(r) for r in rows[:6]],
+                             expected='all or none', clause='C04_weight_nan_iff')
+                break
+            model_nan = bool(rows) and len(p[1 if anti else 0]) == 0
+            if bool(nan_rows) != model_nan:
+                ck.tie_break('nan-boundary: the %s weights are %sNaN in the code, the model\'s residual vector of the class has %d '
+                             'values' % ('off-target' if anti else 'on-target', '' if nan_rows else 'not ', len(p[1 if anti else 0])),
+                             case, code=[list(r) for r in rows[:4]], model=len(p[1 if anti else 0]))
+                break
+            if not nan_rows and any(not (F(1, 10000) <= F(r[5]) <= 1) for r in rows):
+                ck.violation('nan-boundary: weight outside [0.0001, 1]', case, code=[list(r) for r in rows[:4]],
+                             expected='0.0001 <= w <= 1', clause='C04_weight_range')
+                break
+
+
 def shrink_unsorted(case):
     """a small version of the failing situation: reverse the target, drop rows while it still differs"""
     def differs(c):
@@ -989,7 +1068,7 @@ def check_corpus(ck):
         case = c['case']
         out = run_code(case)
         ck.count(['corpus', c['name']], nontrivial=True, cls='corpus')
-        if c.get('kind') == 'pipeline':
+        if c.get('kind') in ('pipeline', 'crossing'):
             if direct_oracle(ck, case, out, 'corpus:' + c['name']) and case.get('sorted', True) and in_precondition(case):
                 m = run_model([case])[0]
                 compare_model(ck, case, out, m, 'corpus:' + c['name'])
@@ -1017,10 +1096,18 @@ def run(ck, scratch):
                'Non-trivial = a non-empty output table.')
     ck.unproved_remainder = [
         'C04_weight_range is stated for inputs with a usable (reference-filter passing, not null-coverage) bin in each class present; '
-        'without one the code gives NaN weights (open known finding %s, replayed on its canonical case only; generators stay out)' % SIG_NAN,
-        'C04_centred: "median of autosomal chromosome medians of the covered output bins is 0" is proved under the hypothesis that the final '
-        'shift moves no bin across the null-coverage cut-off -15 (otherwise it holds for the bins selected before the shift); the direct '
-        'oracle evaluates it on outputs with no bin within 4 of the cut-off',
+        'without one the code gives NaN weights (open known finding %s, reported on its canonical case only).  Which inputs: '
+        'C04_weight_nan_iff (the residual vector of a class is empty iff every bin of the class is null-coverage after the '
+        'reference was subtracted) and C04_weight_nan_depth (a depth column that is 0 on every sample bin of the class); the '
+        'nan-boundary stream compares "the code\'s weights of a class are NaN" with "the model\'s residual vector is empty" '
+        'on cohorts with one class nulled' % SIG_NAN,
+        'C04_centred ("median of autosomal chromosome medians of the covered output bins is 0") needs that the final shift moves no '
+        'bin across the null-coverage cut-off -15: C04_centred_crossing says exactly which bins cross, C04_centred_crossing_refuted is the '
+        'sharp counter-example (candidate finding %s, corpus case %s), C04_centred_selected proves without any hypothesis that the bins '
+        'covered when the centre was estimated are centred; the direct oracle demands the plain clause, and on a crossing case the '
+        'unconditional one (some upper set by log2 of the bins with a depth is centred)' % (SIG_CROSS, CROSS_NAME),
+        'do_cluster=True (reference sub-clusters chosen by correlation) is outside the model and the theorems: C04_scope_no_cluster '
+        'pins the default False and the plain log2 / spread column names; no generated case sets it',
         'biweight_midvariance(..)**2 is an oracle of the model (contract: not negative; exact rational biweight iterations are not '
         'computable in reasonable time): supplied from the code on the residuals the model hands out, so a change inside '
         'descriptives.biweight_midvariance is seen by C19/C17, not here; the exact definition is compared on small inputs (unit:variance)',
@@ -1059,6 +1146,20 @@ def run(ck, scratch):
         if total == 0 or not quick:
             check_cli(ck, scratch, cases, outs, limit=(2 if quick else 3))
         total += len(cases)
+    # null-coverage boundary: bins with a depth whose log2 sits around the cut-off -15, so that the centring shifts (first
+    # per table, then the final one) move some of them across it
+    cross = []
+    while len(cross) < (12 if quick else 120):
+        case = gen_case(rng, nbins=rng.choice([20, 24, 30, 40]))
+        for part in ('target', 'anti'):
+            rows = case[part]
+            for j in rng.sample(range(len(rows)), min(len(rows), rng.randint(1, 3))):
+                rows[j][4] = -15.0 + g(rng, -1.5, 1.5)
+                rows[j][5] = max(rows[j][5], 1.0)
+        if in_precondition(case):
+            cross.append(case)
+    check_pipeline(ck, cross, 'null-boundary')
+    check_nan_boundary(ck, 10 if quick else 120)
     mal = malformed_cases(rng, 40 if quick else 400)
     check_pipeline(ck, mal, 'malformed')
     ck.explanation = ('C04: the Coq model of do_fix (Model/Fix.v) is proved to emit exactly the filtered sample bins in genomic order, to '
